@@ -196,6 +196,13 @@ def prod(xs):
     return r
 
 
+def fits(it, vals):
+    """Lean `Fits`: the product of every run of consecutive extents is representable in the index type"""
+    n = len(vals)
+    m = it_max(it)
+    return all(prod(vals[a:a + b]) <= m for a in range(n + 1) for b in range(n + 1))
+
+
 def req_stride(ext, strs):
     if prod(ext) == 0:
         return 0
@@ -242,11 +249,16 @@ ASSUMPTIONS = ["libstdc++ 12 has no <mdspan>: the C++-side oracle is the enumera
 TRUSTED = ["hand model Tetl/C19/Model.lean tied to the source by the correspondence run (R1) on every run",
            "spec Tetl/C19/Spec.lean (mixed-radix closed forms) validated against the C-array enumeration oracle and "
            "std::span (R2) on every run"]
+P = "Tetl.C19.Props."
 THEOREMS = {
-    "map": ["Tetl.C19.Props.left_in_span", "Tetl.C19.Props.left_injective", "Tetl.C19.Props.right_in_span",
-            "Tetl.C19.Props.right_injective", "Tetl.C19.Props.mapIdx_eq", "Tetl.C19.Props.stride_injective"],
-    "conv": ["Tetl.C19.Props.conv_extent_eq"],
-    "span": ["Tetl.C19.Props.subspan_eq"],
+    "ext": [P + "extents_ctor_eq", P + "fwd_prod_eq", P + "rev_prod_eq"],
+    "map": [P + x for x in ("left_in_span", "left_injective", "right_in_span", "right_injective", "zero_extent",
+                            "stride_in_span", "stride_injective", "stride_consistent", "required_span_size_eq",
+                            "mapIdx_closed_form", "mapIdx_in_span", "mapIdx_injective", "mdspan_access_eq",
+                            "mdarray_access_eq", "ctor_mapping_closed_form", "transpose_eq", "transpose_stride_eq")],
+    "conv": [P + "conv_extent_eq"],
+    "span": [P + x for x in ("subspan_eq", "subspanT_eq", "first_eq", "last_eq")],
+    "stride_members": [P + "stride_in_span"],
 }
 
 
@@ -289,9 +301,8 @@ def generate(tier, seed):
         nd = sum(1 for x in p if x < 0)
         full = thorough or r <= 3 or (it == "i32" and nd == 4)
         for vals in dyn_choices(rnd, p, full, 80):
-            size = prod(vals)
-            if size > it_max(it):
-                continue                       # standard precondition: index space size representable
+            if not fits(it, vals):
+                continue                       # standard precondition (Lean `Fits`): sizes representable
             for lay in ("left", "right"):
                 ctors = ["dyn", "all"] if (thorough or r <= 2) else [("dyn", "all")[k % 2]]
                 for ctor in ctors:
@@ -383,7 +394,19 @@ LEVEL_NOTE = ("Trusted: Lean kernel + propext/Classical.choice/Quot.sound; the h
               "inputs; g++-12/ASan; the C-array enumeration oracle and std::span for spec validation. Theorems about the "
               "wrapped index_type arithmetic assume the standard's representability precondition (Fits). Members listed in "
               "coverage.correspondence_only are compared on every run but have no theorem.")
-CORRESPONDENCE_ONLY = []
+CORRESPONDENCE_ONLY = [
+    "layout_stride::mapping::operator() / stride() / strides() with the index_type casts (StrideMap.mapIdx): in-span and "
+    "injectivity are proved for the closed form Σ i_k*s_k (stride_in_span, stride_injective); model = closed form is "
+    "compared on every run only",
+    "mdspan element access over layout_stride and layout_transpose mappings (mdspanAtStride, the transposed read): "
+    "compared on every run; the access theorem mdspan_access_eq covers layout_left / layout_right",
+    "linalg::detail::transpose_extents and layout_transpose::mapping::extents() / required_span_size(): modelled "
+    "(transposeExt, TMap.make) and compared on every run, no theorem",
+    "extents::operator==, mdspan::size / empty / extents, mdspan::operator[](array) and operator[](span), "
+    "mdarray::to_mdspan / container_size: observed by the harness and folded into the md= / mda= / size= fields",
+    "layout_stride::mapping::required_span_size / is_exhaustive: declared, not defined (known finding "
+    "F-C19-stride-undefined-members); the spec value is Spec.reqSpanStride",
+]
 
 if __name__ == "__main__":
     if "--emit-inst" in sys.argv:
